@@ -118,6 +118,15 @@ def psi_matrix(tabs):
     return P
 
 
+class Scaled:
+    """a scalar basis function of small amplitude: eps * f"""
+    def __init__(self, f, eps):
+        self.f, self.eps = f, eps
+
+    def __call__(self, s_):
+        return self.eps * self.f(s_)
+
+
 def side_case(seed):
     rng = random.Random(seed)
     which = rng.choice(['cm', 'fm', 'kb', 'arr'])
@@ -138,6 +147,13 @@ def side_case(seed):
             else:
                 basis = [[rand_fun(rng, d, 'float') for _ in range(rng.randint(1, 3))] for _ in range(p)]
                 nfeat = int(np.prod([len(b) for b in basis]))
+            thr = 0.0
+            if which in ('cm', 'fm') and rng.random() < 0.4:
+                # a relative threshold far below every singular-value ratio that is judged, on data of small amplitude or not
+                thr = 1e-8
+                if rng.random() < 0.6:
+                    phi = [Scaled(f_, 1e-3) for f_ in phi]
+                desc.update(threshold=thr, small_amplitude=isinstance(phi[0], Scaled))
             m = {'under': max(1, nfeat - rng.randint(1, 3)), 'over': nfeat + rng.randint(1, 4), 'exact': nfeat}[regime]
             m = min(m, 40)
             x = rand_x(rng, d, m, 'float')
@@ -152,10 +168,10 @@ def side_case(seed):
             xs, ys = x.copy(), y.copy()
             if which == 'cm':
                 tabs = cm_tables(x, phi)
-                xi = reg.mandy_cm(x, y, phi, threshold=0.0)
+                xi = reg.mandy_cm(x, y, phi, threshold=thr)
             elif which == 'fm':
                 tabs = fm_tables(x, phi, add_one)
-                xi = reg.mandy_fm(x, y, phi, threshold=0.0, add_one=add_one)
+                xi = reg.mandy_fm(x, y, phi, threshold=thr, add_one=add_one)
             else:
                 tabs = [np.array([[float(basis[i][k](x[:, j])) for j in range(m)] for k in range(len(basis[i]))]) for i in range(p)]
                 try:
